@@ -147,6 +147,8 @@ struct TxCtx {
     frame_writable: Vec<Vec<bool>>,
 }
 thread_local! {
+    /// set while a function under comparison runs inside `quiet_catch`: its panic is an outcome, not noise
+    static QUIET: std::cell::Cell<bool> = const { std::cell::Cell::new(false) };
     /// clock seen by `Clock::get()` when a program function is called outside a transaction
     static AMBIENT_CLOCK: RefCell<Clock> = RefCell::new(Clock::default());
     static CTX: RefCell<Option<TxCtx>> = const { RefCell::new(None) };
@@ -579,6 +581,15 @@ fn current_clock() -> Clock {
     CTX.with(|c| c.borrow().as_ref().map(|c| c.clock.clone())).unwrap_or_else(|| AMBIENT_CLOCK.with(|a| a.borrow().clone()))
 }
 
+/// Run `f`, turning a panic into `Err(message)` without printing it (function-level differentials).
+pub fn quiet_catch<T>(f: impl FnOnce() -> T) -> Result<T, String> {
+    init();
+    QUIET.with(|q| q.set(true));
+    let r = std::panic::catch_unwind(std::panic::AssertUnwindSafe(f));
+    QUIET.with(|q| q.set(false));
+    r.map_err(|e| e.downcast_ref::<String>().cloned().or_else(|| e.downcast_ref::<&str>().map(|s| s.to_string())).unwrap_or_else(|| "panic".into()))
+}
+
 /// Clock for function-level calls made outside a transaction on this thread.
 pub fn set_ambient_clock(clock: Clock) {
     init();
@@ -693,6 +704,9 @@ pub fn init() {
                 loop {
                     std::thread::park();
                 }
+            }
+            if QUIET.with(|q| q.get()) {
+                return;
             }
             default_hook(info);
         }));
